@@ -475,3 +475,135 @@ Proof.
     + destruct tg as [a|]; [|intros Q; try injp Q; olaw b].
       destruct (inst_nocaps c _ (ref_clone s a)) as [ci s2] eqn:I. intros Q; injp Q. olaw b.
 Qed.
+
+(* ------------------------------------------------------------------ *)
+(** * Top-level operations and the law for every micro-op *)
+
+Lemma do_top_O b o s pre s' : do_top o s = (pre, s') -> lawO b 0 s pre s'.
+Proof.
+  unfold do_top, lawO. destruct o; repeat dest_match; intros Q; try injp Q; olaw b.
+Qed.
+
+Lemma class_flag_cred x all p e : class_flag all p = Some e -> cred1 x e = 0.
+Proof.
+  unfold class_flag. destruct (a_freed (snd p)); [discriminate|].
+  destruct (a_state (snd p)) as [[|c h]|sh slab nx|]; try discriminate.
+  - intros Q; inversion Q; reflexivity.
+  - destruct (existsb _ _); [|discriminate]. intros Q; inversion Q; reflexivity.
+Qed.
+
+Lemma HG_class_flags x s : H x (class_flags s) = H x s /\ G x (class_flags s) = G x s.
+Proof.
+  unfold class_flags. generalize (actors s) at 1 3 as all. intros all.
+  generalize (actors s) at 1 2 as l. intros l. revert s. induction l as [|p l IH]; intros s; simpl; auto.
+  destruct (IH (emit_opt s (class_flag all p))) as [A B]. rewrite A, B. unfold emit_opt.
+  destruct (class_flag all p) as [e|] eqn:CF; [|auto].
+  rewrite H_emit, G_emit, (class_flag_cred x _ _ _ CF). split; lia.
+Qed.
+
+Lemma cred_app x a b : cred x (a ++ b) = cred x a + cred x b.
+Proof. induction a; simpl; lia. Qed.
+Lemma cred_leaks x l : cred x (map (fun p : N * N => ELeak (fst p) (snd p)) l) = 0.
+Proof. induction l; simpl; lia. Qed.
+
+Lemma handle_O b m s pre s' :
+  PremO m s -> (forall t, m <> MNew t) -> handle m s = (pre, s') -> lawO b (hmop (HO b) m) s pre s'.
+Proof.
+  intros PR NN. pose proof PR as [SR HB LIM]. destruct m; cbn [handle]; try (cbn [hmop]).
+  - (* MTop *) apply do_top_O.
+  - (* MActs *)
+    destruct l as [|a l]; [intros Q; injp Q; olaw b|].
+    destruct (do_act a s) as [p s1] eqn:E. intros Q; injp Q.
+    destruct (do_act_O b _ _ _ _ _ PR E) as [A B]. unfold lawO. rewrite hmops_app. simpl. split; lia.
+  - (* MPopFrame *)
+    destruct (frames s) as [|fr rest] eqn:F; intros Q; injp Q; olaw b.
+  - (* MEndBody *)
+    destruct (frames s) as [|fr rest] eqn:F; [intros Q; injp Q; olaw b|].
+    intros Q; injp Q. unfold lawO. rewrite hmops_app, hmops_drops.
+    assert (T : forall l, l = match f with
+            | FNone => []
+            | FMeth a => match f_die fr with Some c => [MTerminate a c] | None => [] end
+            | FPrep a ready => match f_die fr with
+                | Some c => if ready then [MOrphNew a; MTerminate a c; MOrphDrop a] else [MTerminate a c]
+                | None => if ready then [MToReady a] else [] end end -> hmops (HO b) l = 0).
+    { intros l ->. destruct f; try destruct (f_die fr); try destruct ready; reflexivity. }
+    rewrite (T _ eq_refl), H_set_frames, G_set_frames, H_emit, G_emit.
+    replace (frames (emit s (EEnd uid))) with (frames s) by reflexivity. rewrite F. osimp. split; lia.
+  - (* MRunItem *) apply run_item_O.
+  - (* MDropItem *) apply drop_item_O.
+  - (* MDropInner *) intros Q; injp Q. unfold lawO. rewrite (hcc_caps (HO b) c). olaw b.
+  - (* MDropVal *) apply drop_val_O.
+  - (* MDropOwn *)
+    intros Q. pose proof (HB a) as HA. cbn [hmop] in HA. rewrite hind_refl in HA. pose proof (hst_nn (HO a) s).
+    pose proof (LIM a). pose proof (hind_range (HO a) (HR a)).
+    pose proof (drop_own_O b a logged s pre s' SR ltac:(lia) Q) as L. unfold lawO in *. osimp. lia.
+  - (* MDropRef *) intros Q. pose proof (drop_ref_O b a s pre s' SR Q) as L. unfold lawO in *. osimp. lia.
+  - (* MRetInvoke *) apply ret_invoke_O.
+  - intros Q; injp Q; olaw b.
+  - intros Q; injp Q; olaw b.
+  - intros Q; injp Q; olaw b.
+  - intros Q; injp Q; olaw b.
+  - (* MTerminate *) apply terminate_O; auto.
+  - (* MLogClose *) destruct (aget (actors s) a); intros Q; injp Q; olaw b.
+  - (* MToReady *)
+    destruct (aget (actors s) a) as [y|] eqn:A; [|intros Q; injp Q; olaw b].
+    destruct (a_state y) eqn:SA; try solve [intros Q; injp Q; olaw b].
+    intros Q; injp Q. unfold lawO. destruct (cnt_set _ _ (SR _ _ A) (proj2 state_range)) as [_ CS].
+    rewrite hmops_runitems, H_emit, G_emit, (H_upd_some _ _ _ _ _ A), (G_upd_some _ _ _ _ _ A).
+    rewrite (hactor_unf _ _ _ SA). unfold hactor. osimp. rewrite CS. eqb_split; split; lia.
+  - (* MNew *) exfalso. eapply NN; reflexivity.
+  - (* MRunIdle *)
+    destruct idle; [destruct (idleq s) as [|c r] eqn:IQ|]; intros Q; injp Q; try solve [olaw b].
+    unfold lawO. rewrite H_set_idleq, G_set_idleq, IQ. osimp. split; lia.
+  - (* MRunMain *)
+    destruct (t >? now (set_mainq s [])).
+    + destruct (fire t (set_now (set_mainq s []) t)) as [fired s2] eqn:FI. intros Q; injp Q.
+      pose proof (H_fire (HO b) _ _ _ _ FI) as A. pose proof (G_fire (HO b) _ _ _ _ FI) as B.
+      rewrite H_set_now, H_set_mainq in A. rewrite G_set_now, G_set_mainq in B.
+      unfold lawO. rewrite hmops_runitems, hq_app. osimp. split; lia.
+    + intros Q; injp Q. unfold lawO. rewrite hmops_runitems, H_set_mainq, G_set_mainq. osimp. split; lia.
+  - (* MLoop *)
+    destruct (mainq s) as [|c l] eqn:MQ.
+    + destruct (lazyq s) as [|c l] eqn:LQ.
+      * intros Q; injp Q. destruct (t >? recreate s); olaw b.
+      * intros Q; injp Q. unfold lawO. cbn [map app hmops hmop]. rewrite hmops_app, hmops_runitems, H_set_lazyq, G_set_lazyq, LQ. osimp. split; lia.
+    + intros Q; injp Q. unfold lawO. cbn [map app hmops hmop]. rewrite hmops_app, hmops_runitems, H_set_mainq, G_set_mainq, MQ. osimp. split; lia.
+  - (* MDrain *)
+    destruct (i >=? TEARDOWN_ROUNDS).
+    + intros Q; injp Q. destruct (is_nil (mainq s)); olaw b.
+    + destruct (mainq s) as [|c l] eqn:MQ; intros Q; injp Q; [olaw b|].
+      unfold lawO. cbn [map app hmops hmop]. rewrite hmops_app, hmops_dropitems, H_set_mainq, G_set_mainq, MQ. osimp. split; lia.
+  - (* MDropFields *)
+    intros Q; injp Q.
+    set (s0 := if ambiguous (timers s) then emit s (EModel M_AMBIG 1) else s).
+    assert (H0 : H (HO b) s0 = H (HO b) s) by (unfold s0; destruct (ambiguous (timers s)); reflexivity).
+    assert (G0 : G (HO b) s0 = G (HO b) s) by (unfold s0; destruct (ambiguous (timers s)); [rewrite G_emit; simpl; lia | reflexivity]).
+    assert (Q0 : lazyq s0 = lazyq s /\ idleq s0 = idleq s /\ timers s0 = timers s) by (unfold s0; destruct (ambiguous (timers s)); auto).
+    destruct Q0 as (Q1 & Q2 & Q3).
+    unfold lawO. rewrite hmops_app, hmops_dropitems, !hq_app, hq_map_ti, htim_sort, H_emit, G_emit, H_set_tvars, G_set_tvars,
+      H_set_timers, G_set_timers, H_set_idleq, G_set_idleq, H_set_lazyq, G_set_lazyq, H0, G0.
+    stsimp. rewrite Q1, Q2, Q3. osimp. split; lia.
+  - (* MDropEnd *)
+    intros Q; injp Q. destruct (is_nil (mainq s)); olaw b.
+  - (* MDropAll *)
+    destruct (amin (env s)) as [[h v]|] eqn:AM; intros Q; injp Q; [|olaw b].
+    unfold lawO. rewrite H_set_env, G_set_env. pose proof (henv_aget (HO b) _ _ _ (amin_aget _ _ _ AM)). osimp. split; lia.
+  - (* MEpilogue *) intros Q; injp Q; olaw b.
+  - (* MLeaks *)
+    intros Q; injp Q. destruct (HG_class_flags (HO b) s) as [A B]. unfold lawO.
+    assert (HS : H (HO b) (set_tr (class_flags s) (rev (leaks (rev (tr (class_flags s)))) ++ tr (class_flags s))) = H (HO b) (class_flags s)).
+    { apply H_same; reflexivity. }
+    assert (GS : G (HO b) (set_tr (class_flags s) (rev (leaks (rev (tr (class_flags s)))) ++ tr (class_flags s))) = G (HO b) (class_flags s)).
+    { Transparent G. unfold G. rewrite (ctr_same (HO b) (class_flags s) (set_tr (class_flags s) _)) by reflexivity.
+      cbn [tr set_tr]. rewrite cred_app. unfold leaks. rewrite <- map_rev, cred_leaks. lia. Opaque G. }
+    rewrite HS, GS, A, B. osimp. split; lia.
+Qed.
+
+(* [MNew]: with the global deferrer the previous main queue is dropped, item by item *)
+Lemma new_O b t s pre s' : dk s = DGlobal -> handle (MNew t) s = (pre, s') -> lawO b 0 s pre s'.
+Proof.
+  cbn [handle]. intros D Q; injp Q. rewrite D. unfold lawO, fresh_stakker.
+  Hrw. rewrite hmops_dropitems, H_set_mainq, H_emit. change (mainq (emit s (ENew t))) with (mainq s). cbn [hq cred1]. split; lia.
+Qed.
+
+Print Assumptions handle_O.
